@@ -539,6 +539,65 @@ def run_version(sc, sink, res=None):
         if bi < len(sent) and sent[bi][0] != clamp:
             sink.mon("header-version %r differs from clamp(%r)" % (sent[bi][0], chosen[0]), sc, ["c04-version-clamp"])
 
+    # the PUBLIC fetch_api_versions() once more, in whatever state the discovery ended (a second call performs
+    # no request, answers ApiVersionResponse(-1, []) and leaves the fallback state: Version.fetchApiVersionsCall),
+    # then one more produce / fetch: it must carry what the model says for the state the call left
+    before = client._api_versions
+    if before is not None:
+        n0, apiv0 = len(st["frames"]), st["apiv"]
+        with W.Externals(1500000000123):
+            got = []
+            client.fetch_api_versions().addBoth(got.append)
+            _pump(w, lambda: bool(got))
+            r = got[0] if got else None
+            if isinstance(r, C.ApiVersionResponse):
+                obs = ["ok " + vr([sv(client._api_versions), r.error_code, sv(list(r.api_versions))])]
+            else:
+                obs = ["refetch-failed %r" % (r,)]
+            sink.corr("fetch-api-versions %s [ ]" % vr(sv(before)), obs, sc)
+            after = client._api_versions
+            got = []
+            if sc["api"] == "produce":
+                Producer(client, codec=sc["codec"]).send_messages(topic, msgs=[b"r%d" % i for i in range(sc["nmsgs"])]).addBoth(got.append)
+            else:
+                client.send_fetch_request([C.FetchRequest(topic, p, 10 + p, 4096) for p in range(nparts)], max_wait_time=100).addBoth(got.append)
+            _pump(w, lambda: bool(got))
+            out = got[0] if got else None
+        if st["apiv"] != apiv0:
+            sink.mon("refetch sent %d ApiVersions requests in state %r" % (st["apiv"] - apiv0, sv(before)), sc, ["c04-refetch-requests"])
+        later = [(k, v, f) for k, v, f in st["frames"][n0:] if k == key]
+        if len(later) != 1:
+            sink.mon("after-refetch frames %d" % len(later), sc, ["c04-version-no-frame"])
+        for _k, ver, frame in later:
+            magics = []
+            try:
+                _h, body = RC.parse_request(frame)
+                if sc["api"] == "produce":
+                    for t in body["topics"]:
+                        for p in t["partitions"]:
+                            deep = RC.expand_message_set(p["messages"])
+                            magics += [m["magic"] for m in p["messages"]] + [m["magic"] for m in deep]
+                            if [m["value"] for m in deep] != [b"r%d" % i for i in range(sc["nmsgs"])]:
+                                sink.mon("after-refetch produce-payload %r" % ([m["value"] for m in deep],), sc, ["c04-version-frame-payload"])
+            except RC.CodecError as e:
+                sink.mon("refcodec-rejects %s" % e, sc, ["c04-version-frame-nonconforming"])
+            if after == 0:
+                sink.mon("mon-fallback %s %s" % (vr(ver), vr(magics)), sc, ["c04-fallback-not-zero:refetch:" + sc["api"]])
+            else:
+                sink.mon("mon-version %s %s %s" % (vr(sv(after)), vr(key), vr(ver)), sc, ["c04-version-not-advertised"])
+        if sc["api"] == "fetch" and isinstance(out, list):
+            gotr = sorted((r.topic, r.partition, r.error, r.highwaterMark, [(m.offset, m.message.value) for m in W.drain(r.messages)[0]]) for r in out)
+            want = sorted((topic, p, 0, 7, [(10 + p, b"v%d" % p)]) for p in range(nparts))
+            if gotr != want:
+                sink.mon("after-refetch reply-mismatch got=%r want=%r" % (gotr, want), sc, ["c04-reply-decoder-mismatch"])
+        elif sc["api"] == "produce" and isinstance(out, C.ProduceResponse):
+            if (out.topic, out.error, out.offset) != (topic, 0, 100 + out.partition):
+                sink.mon("after-refetch reply-mismatch got=%r" % (out,), sc, ["c04-reply-decoder-mismatch"])
+        else:
+            sink.mon("after-refetch reply-failed %r" % (out,), sc, ["c04-reply-decoder-mismatch"])
+        if res is not None:
+            res.count("refetch:%s->%s" % ("table" if isinstance(before, list) else before, "table" if isinstance(after, list) else after))
+
 
 # --------------------------------------------------------------------------- running and judging
 
